@@ -22,6 +22,13 @@ the wrapping primitive, and nothing lengthens a line after wrapping.
      node's in-line ``comment`` reaches ``format_line`` only through the
      ``comment=`` keyword (items are split at blanks and continued with ``&``,
      which turns the tail of a long comment into code tokens).
+ R6  every fit test reserves room for the continuation marker: in
+     ``JoinableStringList._add_item_to_line`` each comparison with ``self.width``
+     has, on the other side, ``len(<text>) + len(self.cont[0])`` as a linear form,
+     for every alternative of a conditional expression -- a line may always have
+     to be continued after the item just added (an inner list is followed by
+     ``)``, `` :: ``, ...), so an item admitted without that reserve produces a
+     line of width + 2 once `` &`` is appended.
 Not decided: the arithmetic of JoinableStringList itself.
 """
 import ast
@@ -248,8 +255,71 @@ def run(ctx):
     (ctx.judge('R4', 'FortranStyle.linewidth', facts={'value': val}) if val == 132 else
      ctx.violation('R4', 'FortranStyle.linewidth', style.where, f'default Fortran line width is {val}, free-form limit is 132'))
 
+    run_r6(ctx)
+
+
+def run_r6(ctx):
+    import copy
+    import itertools
+    from sa.linform import lin_py, NotLinear
+    m = ctx.model
+    ctx.rule('R6', 'JoinableStringList._add_item_to_line: every comparison with self.width reserves len(self.cont[0]) on the other side '
+                   '(all alternatives of conditional expressions)')
+    J = m.get_class('loki/tools/strings.py', 'JoinableStringList')
+    f = J.function('_add_item_to_line')
+    if f is None:
+        raise AnalysisError('JoinableStringList._add_item_to_line vanished')
+    RES = 'len(self.cont[0])'
+
+    def alternatives(e):
+        ifs = [n for n in ast.walk(e) if isinstance(n, ast.IfExp)]
+        if not ifs:
+            return [e]
+        out = []
+        for choice in itertools.product((0, 1), repeat=len(ifs)):
+            e2 = copy.deepcopy(e)
+            k = [0]
+
+            class S(ast.NodeTransformer):
+                def visit_IfExp(self, n):
+                    c = choice[k[0]]; k[0] += 1
+                    n = self.generic_visit(n)
+                    return n.body if c == 0 else n.orelse
+            out.append(S().visit(e2))
+        return out
+    n = 0
+    for c in ast.walk(f.node):
+        if isinstance(c, ast.Compare) and len(c.ops) == 1 and isinstance(c.ops[0], (ast.LtE, ast.Lt, ast.Gt, ast.GtE)):
+            sides = [c.left, c.comparators[0]]
+            if not any(ast.unparse(x) == 'self.width' for x in sides):
+                continue
+            other = sides[1] if ast.unparse(sides[0]) == 'self.width' else sides[0]
+            n += 1
+            inst = f'_add_item_to_line:{ast.unparse(c)}'
+            bad = None
+            for alt in alternatives(other):
+                try:
+                    lf = lin_py(alt)
+                except NotLinear as u:
+                    raise AnalysisError(f'_add_item_to_line: `{u}` in a width comparison is outside the linear fragment')
+                if lf.get(RES, 0) < 1:
+                    bad = ast.unparse(alt)
+            if bad is None:
+                ctx.judge('R6', inst)
+            else:
+                ctx.violation('R6', '_add_item_to_line:no-room-for-continuation', f'{f.module.relpath}:{c.lineno}',
+                              f'`{ast.unparse(c)}` can compare `{bad}` with the width, i.e. without the {RES} columns of the continuation '
+                              f'marker: an item that fills the line is admitted, and when the statement continues (`)`, ` :: ` after an inner '
+                              f'list) ` &` is appended to a full line -- 133 or 134 columns', instance=inst)
+    ctx.floor('R6', 'width comparisons', n, 4)
+
 
 MUTANTS = [
+    Mutant('last-item-without-reserve', 'loki/tools/strings.py', "        if len(new_line) + len(self.cont[0]) <= self.width:\n            return new_line, []",
+           "        if len(new_line) + (0 if item is self.items[-1] else len(self.cont[0])) <= self.width:\n            return new_line, []",
+           expect=('R6', 'no-room-for-continuation')),
+    Mutant('neutral-reserve-reordered', 'loki/tools/strings.py', "        if len(new_line) + len(self.cont[0]) <= self.width:\n            return new_line, []",
+           "        if len(self.cont[0]) + len(new_line) <= self.width:\n            return new_line, []", expect=None),
     Mutant('assignment-comment-positional', FG, "        return self.format_line(lhs, ' = ', rhs, comment=comment)", "        return self.format_line(lhs, ' = ', rhs, comment)",
            expect=('R5', 'visit_Assignment:comment-as-item')),
     Mutant('assignment-raw-fstring', FG, "        return self.format_line(lhs, ' = ', rhs, comment=comment)", "        return f'{self.indent}{lhs} = {rhs}'",
